@@ -349,3 +349,23 @@ M("C17", "dim argument not validated", BS, "        self.sample_dims = convert_t
 M("C17", "transform dims check not called", ST, "        self._validate_transform_dimensions(X)\n", "", "GUARD.role.transform_dims.called")
 B("C17", "type validation via local alias order", BS, "        validate_input_type(X)\n        if weights is not None:\n            validate_input_type(weights)", "        if weights is not None:\n            validate_input_type(weights)\n        validate_input_type(X)")
 B("C17", "rank check with >=+1", DEC, "        if self.n_modes_precompute > rank:", "        if rank < self.n_modes_precompute:")
+
+# ---------------------------------------------------------------- C08
+M("C08", "with_std fed from center", BS, "            with_std=standardize,", "            with_std=center,", "WIRE.option")
+M("C08", "cross preprocessor2 gets standardize[0]", BC, "            with_std=standardize[1],", "            with_std=standardize[0],", "WIRE.option")
+M("C08", "weights_Y dropped in cross fit", BC, "Y = self.preprocessor2.fit_transform(Y, self.sample_dims, weights_Y)", "Y = self.preprocessor2.fit_transform(Y, self.sample_dims)", "WIRE.weights.entry")
+M("C08", "weights_X given to preprocessor2", BC, "Y = self.preprocessor2.fit_transform(Y, self.sample_dims, weights_Y)", "Y = self.preprocessor2.fit_transform(Y, self.sample_dims, weights_X)", "WIRE.weights.entry")
+M("C08", "weights applied twice in transform", SC, "        X = X * self.weights_\n        return X", "        X = X * self.weights_ * self.weights_\n        return X", "WIRE.flag.once")
+M("C08", "mean over feature dims", SC, "self.mean_: DataVar = X.mean(self.sample_dims)", "self.mean_: DataVar = X.mean(self.feature_dims)", "WIRE.stats")
+M("C08", "std under center flag", SC, '        if params["with_std"]:\n            self.std_: DataVar', '        if params["with_center"]:\n            self.std_: DataVar', "WIRE.flag.fit")
+M("C08", "coslat applied under std flag in transform", SC, '        if params["with_coslat"]:\n            X = X * self.coslat_weights_', '        if params["with_std"]:\n            X = X * self.coslat_weights_', "WIRE.flag")
+M("C08", "scaler ignores user weights", SC, "            wghts: DataVarBound = weights\n", "            wghts: DataVarBound = feature_ones_like(X, self.feature_dims)\n", "WIRE.weights.store")
+M("C08", "list transformer shares first weights", LP, "kwargs = {k: v[i] for k, v in self._iter_kwargs.items()}", "kwargs = {k: v[0] for k, v in self._iter_kwargs.items()}", "WIRE.weights.per_item")
+M("C08", "preprocessor forgets weights key", PR, 'scaler_iterkwargs = {"weights": weights}', 'scaler_iterkwargs = {}', "WIRE.weights.iter_kwargs")
+M("C08", "preprocessor fit_transform drops weights", PR, "        # to avoid duplicate computation\n        self, X = self._fit_algorithm(X, sample_dims, weights)", "        # to avoid duplicate computation\n        self, X = self._fit_algorithm(X, sample_dims)", "WIRE.weights.forward")
+M("C08", "coslat without sqrt", XU, "return np.sqrt(np.cos(np.deg2rad(data)).clip(0, 1))", "return np.cos(np.deg2rad(data)).clip(0, 1)", "WIRE.stats.coslat")
+M("C08", "coslat in radians", XU, "return np.sqrt(np.cos(np.deg2rad(data)).clip(0, 1))", "return np.sqrt(np.cos(data).clip(0, 1))", "WIRE.stats.coslat")
+M("C08", "sanitizer check_nans from compute", PR, "Sanitizer, check_nans=self.check_nans, **dim_names_as_kwargs", "Sanitizer, check_nans=self.compute, **dim_names_as_kwargs", "WIRE.option.inner")
+M("C08", "single model ignores use_coslat", BS, "            with_coslat=use_coslat,\n", "", "WIRE.option")
+B("C08", "options via local dict", BS, "        self.preprocessor = Preprocessor(\n            sample_name=sample_name,\n            feature_name=feature_name,\n            with_center=center,", "        self.preprocessor = Preprocessor(\n            feature_name=feature_name,\n            sample_name=sample_name,\n            with_center=center,")
+B("C08", "weights forwarded by keyword", BC, "X = self.preprocessor1.fit_transform(X, self.sample_dims, weights_X)", "X = self.preprocessor1.fit_transform(X, self.sample_dims, weights=weights_X)")
